@@ -181,6 +181,108 @@ def run(ctx):
         ctx.case(('sha1', m))
         if mo != 'ok ' + hashlib.sha1(m).hexdigest():
             ctx.disagree('sha1 (Lean vs hashlib)', hx(m), mo, hashlib.sha1(m).hexdigest())
+    utf8_tie(ctx)
+
+
+def utf8_tie(ctx):
+    """Tie of Model/C17Utf8.lean (driver `c17enc`, `c17hash`, `c17join`): Python's own `str.encode('utf-8')` on code
+    point lists incl. lone surrogates and surrogate pairs (UnicodeEncodeError -> `err:value`), the real
+    `generate_verification_hash(id, secret, key)`, and the strings a fresh real LoginReactor passes to
+    `auth_token.join` when it reacts to ONE encryption request (os.urandom replaced only around that call and
+    restored in finally; the token is a recorder)."""
+    import collections
+    import os
+    from minecraft.networking import encryption
+    from minecraft.networking.connection import Connection, LoginReactor
+    from minecraft.networking.packets import clientbound
+    import minecraft
+    import rsakeys
+    from gen import c17utf8 as G
+    rng = ctx.rng
+    SUP = sorted(minecraft.SUPPORTED_PROTOCOL_VERSIONS)
+
+    def rnd_cp(surrogates):
+        x = rng.random()
+        if x < 0.35:
+            return rng.choice([0x2d, 0x20, 0x41, 0x7a, 0x7f, 0x00, 0x01, rng.randrange(0x20, 0x7f)])
+        if x < 0.5:
+            return rng.choice([0x80, 0xe9, 0xf6, 0x7ff, rng.randrange(0x80, 0x800)])
+        if x < 0.7:
+            return rng.choice([0x800, 0x20ac, 0x4e16, 0xd7ff, 0xe000, 0xfffd, 0xffff, rng.randrange(0x800, 0xd800), rng.randrange(0xe000, 0x10000)])
+        if x < 0.85 or not surrogates:
+            return rng.choice([0x10000, 0x1f600, 0x10ffff, rng.randrange(0x10000, 0x110000)])
+        return rng.choice([0xd800, 0xdbff, 0xdc00, 0xdfff, rng.randrange(0xd800, 0xe000)])
+
+    def rnd_cps(surrogates):
+        n = rng.choice([0, 1, 1, 2, 3, 5, 8, 20])
+        cps = [rnd_cp(surrogates and rng.random() < 0.3) for _ in range(n)]
+        if surrogates and rng.random() < 0.1:         # a well-formed UTF-16 pair is still two lone surrogates in a str
+            i = rng.randrange(len(cps) + 1)
+            cps[i:i] = [rng.randrange(0xd800, 0xdc00), rng.randrange(0xdc00, 0xe000)]
+        return cps
+    ctok = lambda cps: ','.join('%x' % c for c in cps) or '-'
+    lines, want = [], []
+    for _ in range(ctx.scale(400, 6000)):
+        cps = rnd_cps(True)
+        s = ''.join(chr(c) for c in cps)
+        try:
+            got = 'ok ' + hx(s.encode('utf-8'))
+        except ValueError:                      # UnicodeEncodeError
+            got = 'err:value'
+        lines.append('c17enc ' + ctok(cps))
+        want.append(got)
+        secret = bytes(rng.randrange(256) for _ in range(rng.choice([16, 16, 0, 1, 32])))
+        key = bytes(rng.randrange(256) for _ in range(rng.choice([0, 1, 55, 64, 162, 294]))) if rng.random() < 0.7 else rsakeys.RSA_1024['der']
+        try:
+            got = 'ok ' + encryption.generate_verification_hash(s, secret, key)
+        except ValueError:
+            got = 'err:value'
+        lines.append('c17hash %s %s %s' % (ctok(cps), hx(secret), hx(key)))
+        want.append(got)
+    real_urandom = os.urandom
+    for i in range(ctx.scale(60, 800)):
+        cps = rng.choice([[0x2d], [], [0x2d, 0x2d], None, None, None]) or rnd_cps(False)
+        if cps == [None]:
+            cps = []
+        has_token = rng.random() < 0.7
+        key = rng.choice([rsakeys.RSA_1024, rsakeys.RSA_2048])
+        proto = rng.choice(SUP)
+        secret = bytes(rng.randrange(256) for _ in range(16))
+        token = bytes(rng.randrange(256) for _ in range(rng.choice([4, 4, 1, 16])))
+        conn = Connection('localhost', 1, initial_version=proto)
+        conn.context.protocol_version = proto
+        conn.socket, conn.file_object = G._Sink(), G._Sink()
+        conn.options.compression_enabled = False
+        conn._outgoing_packet_queue = collections.deque()
+        conn.reactor = LoginReactor(conn)
+        tok = G._Token() if has_token else None
+        conn.auth_token = tok
+        p = clientbound.login.EncryptionRequestPacket()
+        p.context = conn.context
+        p.server_id = ''.join(chr(c) for c in cps)
+        p.public_key, p.verify_token = key['der'], token
+        draws = []
+
+        def fake(n, draws=draws, secret=secret):
+            draws.append(n)
+            return secret[:n] if n <= len(secret) else real_urandom(n)
+        os.urandom = fake
+        try:
+            conn._react(p)
+        finally:
+            os.urandom = real_urandom
+        if draws != [16]:
+            ctx.disagree('c17join: the reaction no longer draws exactly one 16-byte secret from os.urandom', ctok(cps), [16], draws)
+        joined = list(tok.joined) if tok is not None else []
+        lines.append('c17join %s %s %s %s %d' % (ctok(cps), hx(secret), hx(key['der']), hx(token), has_token))
+        want.append('ok ' + (' '.join(joined) or '-'))
+    for line, mo, w in zip(lines, ctx.driver.ask(lines), want):
+        op = line.split()[0]
+        ctx.case(('c17utf8', line), sample={'op': op, 'request': line[:100], 'impl': w[:80]} if rng.random() < 0.03 else None)
+        ctx.count('%s.%s' % (op, w.split()[0] if op != 'c17join' else ('joined' if w != 'ok -' else 'not-joined')))
+        if mo != w:
+            ctx.disagree('%s vs the real code' % op, line[:400], mo[:200], w[:200])
+    ctx.extra['c17utf8_pairs'] = ctx.extra.get('c17utf8_pairs', 0) + len(lines)
 
 
 def replay(ctx, rp):
